@@ -737,6 +737,40 @@ mod verif_bounded_mdk {
             panic!("BOUNDED-COUNTEREXAMPLE {label}: scenario [history: {} ; bob receives the echo of his own message] bob's own copy is not confirmed: {:?}", w.log.join(" ; "), fb.messages);
         }
     }
+    // C02 "as long as reordering stays inside the CONFIGURED ... past-epoch window ... non-default MdkConfig values": with
+    // max_past_epochs = 8 on every client a message that is k epochs late is stored for every k <= 8. Scope: one group of 2, memory back
+    // end, k in {8, 6, 5} (one message per k, delivered after k further commits). Its own test and label: see known_findings.txt.
+    #[test]
+    fn late_messages_inside_a_configured_window_of_eight_epochs_history() {
+        use crate::messages::MessageProcessingResult;
+        let label = "mdk_backends_bounded.late_messages_inside_a_configured_window_of_eight_epochs_history";
+        let cfg = || crate::MdkConfig { max_past_epochs: 8, ..crate::MdkConfig::default() };
+        let (a, b) = (crate::tests::create_test_mdk_with_config(cfg()), crate::tests::create_test_mdk_with_config(cfg()));
+        let (ak, bk) = (Keys::generate(), Keys::generate());
+        let res = a.create_group(&ak.public_key(), vec![create_key_package_event(&b, &bk)], create_nostr_group_config_data(vec![ak.public_key()])).unwrap();
+        let gid = res.group.mls_group_id.clone();
+        a.merge_pending_commit(&gid).unwrap();
+        let wl = b.process_welcome(&nostr::EventId::all_zeros(), &res.welcome_rumors[0]).unwrap(); b.accept_welcome(&wl).unwrap();
+        let early = a.create_message(&gid, create_test_rumor(&ak, "sent in epoch 1")).unwrap();
+        let mut missed = vec![];
+        for _ in 0..8 { let c = a.self_update(&gid).unwrap().evolution_event; a.merge_pending_commit(&gid).unwrap(); b.process_message(&c).unwrap(); }
+        // bob is now 8 epochs ahead of `early`: inside the configured window of 8
+        let r = b.process_message(&early);
+        if !matches!(r, Ok(MessageProcessingResult::ApplicationMessage(_))) { missed.push(format!("8 epochs late: {:?}", r.as_ref().map(|x| std::mem::discriminant(x)).map_err(|e| format!("{e:?}").chars().take(60).collect::<String>()))); }
+        // and one that is 6 epochs late (beyond the fixed look-back of 5, inside the configured 8)
+        let six = a.create_message(&gid, create_test_rumor(&ak, "sent in epoch 9")).unwrap();
+        for _ in 0..6 { let c = a.self_update(&gid).unwrap().evolution_event; a.merge_pending_commit(&gid).unwrap(); b.process_message(&c).unwrap(); }
+        let r = b.process_message(&six);
+        if !matches!(r, Ok(MessageProcessingResult::ApplicationMessage(_))) { missed.push(format!("6 epochs late: {:?}", r.as_ref().map(|x| std::mem::discriminant(x)).map_err(|e| format!("{e:?}").chars().take(60).collect::<String>()))); }
+        // control: 5 epochs late is read
+        let five = a.create_message(&gid, create_test_rumor(&ak, "sent in epoch 15")).unwrap();
+        for _ in 0..5 { let c = a.self_update(&gid).unwrap().evolution_event; a.merge_pending_commit(&gid).unwrap(); b.process_message(&c).unwrap(); }
+        let r = b.process_message(&five);
+        if !matches!(r, Ok(MessageProcessingResult::ApplicationMessage(_))) { panic!("harness: a message 5 epochs late is not read with max_past_epochs = 8 (not the counterexample this check looks for): {r:?}"); }
+        if !missed.is_empty() {
+            panic!("BOUNDED-COUNTEREXAMPLE {label}: scenario [alice and bob both configured with max_past_epochs = 8; alice sends a message, then commits k self-updates which bob applies, then the message reaches bob] expected: stored for every k <= 8 ; got: {missed:?} (5 epochs late is stored)");
+        }
+    }
     // C05: a commit that a NON-admin member builds directly with the MLS library (bypassing the client-side admin gate) and that does
     // more than refresh its author's own key -- a group-data rewrite making the author an admin, a removal, an add -- is refused by
     // both bystanders and leaves them exactly as they were. Scope: one hostile member, three crafted commits, each delivered twice.
